@@ -22,7 +22,9 @@ HARNESSES = {
         'find_first_match_1': ('request::find', ['C01', 'C02', 'C03'], 'haystacks <= 10 bytes, needle of 1 byte', False, False),
     'find_first_match_2': ('request::find', ['C01', 'C02', 'C03'], 'haystacks <= 10 bytes, needle of 2 bytes', False, False),
     'find_first_match_4': ('request::find', ['C02', 'C03', 'C14'], 'haystacks <= 10 bytes, needle of 4 bytes', False, False),
-    'uri_abs_path': ('Uri::get_abs_path', ['C16', 'C03'], 'all UTF-8 URIs of length <= 9 bytes over the alphabet {h,t,p,:,/,a,.,%,U+00E9} (4 min)', False, True),
+    'uri_abs_path': ('Uri::get_abs_path', ['C16', 'C03'], 'all UTF-8 URIs of length <= 12 bytes over the alphabet {h,t,p,:,/,a,.,%,U+00E9}', False, False),
+    'uri_abs_path_http3': ('Uri::get_abs_path', ['C16', 'C03'], '"http://" + all UTF-8 suffixes of <= 3 bytes over the property alphabet', False, False),
+    'uri_abs_path_http8': ('Uri::get_abs_path', ['C16', 'C03'], '"http://" + all UTF-8 suffixes of <= 8 bytes over the property alphabet (URIs up to 15 bytes)', False, False),
     'deprecation_header_line': ('ResponseHeaders::write_deprecation_header', ['C05'], 'both flag values', True, False),
     'allow_header_line_0': ('ResponseHeaders::write_allow_header', ['C05'], 'the empty Allow list', True, False),
     'allow_header_line_1': ('ResponseHeaders::write_allow_header', ['C05'], 'all Allow lists of 1 method', False, False),
@@ -32,6 +34,7 @@ HARNESSES = {
 
 GROUPS = {
     'find_first_match': ['find_first_match_1', 'find_first_match_2', 'find_first_match_4'],
+    'uri_abs_path_all': ['uri_abs_path', 'uri_abs_path_http3', 'uri_abs_path_http8'],
     'allow_header_line': ['allow_header_line_0', 'allow_header_line_1', 'allow_header_line_2', 'allow_header_line_3'],
 }
 
